@@ -38,6 +38,7 @@ type fileInstr struct {
 	edits    []edit
 	needImp  bool
 	timeUsed bool
+	curFunc  string
 	stmtMode bool
 	problems []string
 }
@@ -45,7 +46,7 @@ type fileInstr struct {
 func (fi *fileInstr) off(p token.Pos) int { return fi.fset.Position(p).Offset }
 
 func (fi *fileInstr) site(p token.Pos) string {
-	return fmt.Sprintf("%s:%d", fi.base, fi.fset.Position(p).Line)
+	return fmt.Sprintf("%s:%d(%s)", fi.base, fi.fset.Position(p).Line, fi.curFunc)
 }
 
 func (fi *fileInstr) insert(at int, text string) {
@@ -132,7 +133,7 @@ func (fi *fileInstr) stmt(st ast.Stmt, inList bool) {
 		fi.insert(fi.off(s.Pos()), fi.mark(s.Pos())+"; ")
 		for _, c := range s.Body.List {
 			cc := c.(*ast.CommClause)
-			fi.insert(fi.off(cc.Colon)+1, " "+fi.yieldWake(cc.Pos())+";")
+			fi.insert(fi.off(cc.Colon)+1, " "+fi.yieldWake(s.Pos())+";")
 			fi.exprFuncLits(cc.Comm)
 			fi.stmtList(cc.Body)
 		}
@@ -300,6 +301,17 @@ func (fi *fileInstr) text(n ast.Node) string {
 	return string(fi.src[fi.off(n.Pos()):fi.off(n.End())])
 }
 
+// goSite names a spawned goroutine after the function it runs.
+func (fi *fileInstr) goSite(g *ast.GoStmt) string {
+	switch f := g.Call.Fun.(type) {
+	case *ast.SelectorExpr:
+		return f.Sel.Name
+	case *ast.Ident:
+		return f.Name
+	}
+	return "func@" + fi.curFunc
+}
+
 func (fi *fileInstr) goStmt(g *ast.GoStmt) {
 	fi.needImp = true
 	call := g.Call
@@ -328,7 +340,7 @@ func (fi *fileInstr) goStmt(g *ast.GoStmt) {
 		if len(pre) > 0 {
 			head += strings.Join(pre, "; ") + "; "
 		}
-		head += fmt.Sprintf("verifsim.Go(%q, func() { ", fi.site(g.Pos()))
+		head += fmt.Sprintf("verifsim.Go(%q, func() { ", fi.goSite(g))
 		fi.replace(fi.off(g.Pos()), fi.off(fl.Pos()), head)
 		fi.replace(fi.off(fl.End()), fi.off(g.End()), fmt.Sprintf("(%s%s) }) }", strings.Join(args, ", "), ell))
 		fi.stmtList(fl.Body.List)
@@ -336,7 +348,7 @@ func (fi *fileInstr) goStmt(g *ast.GoStmt) {
 	}
 	pre = append([]string{"vfn := " + fi.text(call.Fun)}, pre...)
 	txt := fmt.Sprintf("{ %s; verifsim.Go(%q, func() { vfn(%s%s) }) }",
-		strings.Join(pre, "; "), fi.site(g.Pos()), strings.Join(args, ", "), ell)
+		strings.Join(pre, "; "), fi.goSite(g), strings.Join(args, ", "), ell)
 	fi.replace(fi.off(g.Pos()), fi.off(g.End()), txt)
 }
 
@@ -366,7 +378,9 @@ func instrumentFile(path, base string, stmtMode bool) ([]byte, []string, error) 
 		switch fd := d.(type) {
 		case *ast.FuncDecl:
 			if fd.Body != nil {
+				fi.curFunc = fd.Name.Name
 				fi.stmtList(fd.Body.List)
+				fi.curFunc = ""
 			}
 		case *ast.GenDecl:
 			fi.exprFuncLits(fd)
